@@ -8,18 +8,6 @@ From MTV.Gen Require Import LogDomain.
 Import ListNotations.
 Open Scope R_scope.
 
-Definition sumexp (xs : list R) : R := Rlist_sum (map exp xs).
-
-Lemma sumexp_pos xs : xs <> [] -> 0 < sumexp xs.
-Proof. intros H. apply Rlist_sum_pos; [exact H|]. intros x _. apply exp_pos. Qed.
-
-Lemma shifted_sum xs s dV :
-  Rlist_sum (map (fun x => exp (x + s) * dV) xs) = exp s * dV * sumexp xs.
-Proof.
-  unfold sumexp. induction xs as [|x xs IH]; simpl; [ring|].
-  rewrite IH, exp_plus. ring.
-Qed.
-
 (* exactness for ANY shift: ln (sum exp(x+s) dV) - s = ln (dV * sum exp x) *)
 Lemma lse_exact xs s dV : xs <> [] -> 0 < dV ->
   ln (Rlist_sum (map (fun x => exp (x + s) * dV) xs)) - s = ln (dV * sumexp xs).
@@ -33,12 +21,6 @@ Qed.
 
 Lemma marg_slice_exact xs dV : xs <> [] -> 0 < dV -> marg_slice xs dV = ln (dV * sumexp xs).
 Proof. intros Hne HdV. unfold marg_slice. cbv zeta. apply lse_exact; assumption. Qed.
-
-(* marginalisation commutes with adding a constant *)
-Lemma sumexp_shift xs c : sumexp (map (fun x => x + c) xs) = exp c * sumexp xs.
-Proof.
-  unfold sumexp. induction xs as [|x xs IH]; simpl; [ring|]. rewrite IH, exp_plus. ring.
-Qed.
 
 Lemma marg_slice_shift xs dV c : xs <> [] -> 0 < dV ->
   marg_slice (map (fun x => x + c) xs) dV = marg_slice xs dV + c.
